@@ -651,6 +651,81 @@ def case_opkinds(case):
     return out
 
 
+
+# ---------------------------------------------------------------------------
+# (d) operand tensors kept across sessions: a tensor that was walked in an earlier session - and possibly renamed or
+# edited since - gives the traces and counts a freshly built equal tensor gives
+
+def _walk_session(T, prefix):
+    ids = T.getRankIds()
+    Metrics.beginCollect(prefix)
+    bodies = [0, 0]
+    total = 0
+    try:
+        for r in ids:
+            Metrics.trace(r)
+        for m, a_k in T.getRoot():
+            bodies[0] += 1
+            for k, v in a_k:
+                bodies[1] += 1
+                total = total + (v * 1).value
+    finally:
+        Metrics.endCollect()
+    files = _files(prefix)
+    return files, bodies, total, copy.deepcopy(Metrics.dump())
+
+
+def case_kept(case):
+    nest_, edit = case
+    out = []
+    feats = {"operand_kept_across_sessions", "edit:" + edit}
+    prefix = os.path.join(core.scratch(), "c15k")
+    try:
+        reset_pristine()
+        T = Tensor.fromUncompressed(["M", "K"], [list(r) for r in nest_], shape=[len(nest_), len(nest_[0])])
+        first = _walk_session(T, prefix)
+        new_nest = [list(r) for r in nest_]
+        ids = ["M", "K"]
+        if edit == "rename":
+            ids = ["P", "Q"]
+            T.setRankIds(ids)
+        elif edit == "write":
+            ref = T.getPayloadRef(0, 1)
+            ref <<= 9
+            new_nest[0][1] = 9
+        got = _walk_session(T, prefix)
+        reset_pristine()
+        F = Tensor.fromUncompressed(ids, new_nest, shape=[len(nest_), len(nest_[0])])
+        exp = _walk_session(F, prefix)
+        for idx, what in ((0, "trace-files"), (1, "loop-bodies"), (2, "result"), (3, "dump")):
+            if got[idx] != exp[idx]:
+                out.append(("kept-operand", what + "-differ-from-a-fresh-equal-tensor", feats, exp[idx], got[idx]))
+        for rid, n in zip(ids, got[1]):
+            with open(prefix + "-tmp.csv", "w") as f:
+                f.write(got[0].get(rid + "-iter.csv", ""))
+            ni = Compute.numIters(prefix + "-tmp.csv")
+            os.remove(prefix + "-tmp.csv")
+            if ni != n:
+                out.append(("kept-operand", "numIters", feats | {"rank:" + rid}, n, ni))
+        core.CUR.nt("kept")
+    except Exception as ex:
+        out.append(("kept-operand", "exception:" + type(ex).__name__, feats | {"site:" + core.exc_site(ex)}, None, core.tb_tail(ex)))
+        if Metrics.isCollecting():
+            try:
+                Metrics.endCollect()
+            except Exception:
+                pass
+    finally:
+        reset_pristine()
+    return out
+
+
+def shard_kept(acc, shard, nshards, params):
+    rows = list(itertools.product((0, 1), repeat=2))
+    cases = [((r1, r2), e) for r1 in rows for r2 in rows for e in ("none", "rename", "write")]
+    core.drive(acc, "kept", case_kept, cases, shard, nshards, family="kept-operand[2x2 nests x {none, rename, write}]")
+
+
 def shard_opkinds(acc, shard, nshards, params):
     cases = ((sym, a, b, reps) for sym in OPKINDS for a in (0, 2, 0.5) for b in (0, 3, 1.5) for reps in (1, 3))
     core.drive(acc, "opkinds", case_opkinds, cases, shard, nshards, family="opkinds[* + *= += x box/scalar]")
@@ -807,7 +882,7 @@ def shard_lazyboundary(acc, shard, nshards, params):
                family="lazy-across-session-boundary[pairs of F1(%d)]" % params)
 
 
-CASES = {"lazyboundary": case_lazyboundary, "partpop": case_partpop, "opkinds": case_opkinds, "history": bfs.replay_case, "kernel": case_kernel, "explicit": case_explicit,
+CASES = {"kept": case_kept, "lazyboundary": case_lazyboundary, "partpop": case_partpop, "opkinds": case_opkinds, "history": bfs.replay_case, "kernel": case_kernel, "explicit": case_explicit,
          "assign_leaf": case_assign_leaf}
 
 
@@ -850,6 +925,11 @@ def run(ctx):
                                               "starting at or after the first one's last coordinate, resuming at z's saved position; "
                                               "metrics off vs. on with trace subsets none / iter / populate_1 / populate_write_0 / "
                                               "populate_read_0 / three together; N=%d" % (4 if q else 5))
+    if not ctx.only or "kept" in ctx.only:
+        ctx.shards(shard_kept, None, nshards=4)
+        ctx.bounds["kept-operand"] = ("every 2x2 nest over {0,1}: the tensor is walked fiber by fiber in one session, then left alone / renamed "
+                                      "(setRankIds) / written through a reference, and walked again in a second session: trace files, loop "
+                                      "bodies, numIters and counters equal those of a freshly built equal tensor")
     if not ctx.only or "opkinds" in ctx.only:
         ctx.shards(shard_opkinds, None, nshards=4)
         ctx.bounds["operand-kinds"] = ("* + *= += (subtraction is not a counted operation) with left operand a box over {0,2,0.5}, right operand {0,3,1.5} as box / plain "
